@@ -137,9 +137,9 @@ Print Assumptions C10_compile_wellformed_partial_strong.
      5-byte instruction), so the u32 counter `next_var` does not wrap;
    - Handle::from_u32 is injective on 0 .. 2^32 - 2 (C10_from_u32_injective), so the ids in use have
      pairwise distinct keys in `variables.names`;
-   - two variable NAMES with the same Handle::from_str hash share one id and the name of the first; the
-     tables stay mutually inverse in the sense of [wellformed] (the second name is not recorded: that is
-     a property of the language, not of the bytecode's validity).
+   - two variable NAMES with the same Handle::from_str hash used to share one id and the name of the first
+     (the tables stayed mutually inverse in the sense of [wellformed]); since ce07816 the second name is a
+     compilation error (C10_name_collision_repaired, C10_global_id_records_name).
    New with respect to C10_compile_wellformed_partial_strong, all proved as invariants of the
    compilation state threaded through process_card (CompilerFull.Inv3, next to CompilerOk.Inv2):
    (1) every string operand (StringLiteral, NativeFunctionPointer, property shorthands) is the offset of a
@@ -152,7 +152,7 @@ Print Assumptions C10_compile_wellformed_partial_strong.
    below the number of locals its own function has declared at that point, and that RegisterUpvalue's index
    refers to an existing local / upvalue of the enclosing function - the bytecode does not declare the
    number of locals of a function, so this is not a property of the output alone. *)
-From Cao Require Import WellformedSide CompilerFull HandleInj.
+From Cao Require Import CompilerGen WellformedSide CompilerFull HandleInj.
 Theorem C10_compile_wellformed :
   forall (M : module) (o : options) (B : compiled),
     compile M o = COk B ->
@@ -234,16 +234,53 @@ Theorem C10_module_in_range_program :
 Proof. exact module_in_range_program. Qed.
 Print Assumptions C10_module_in_range_program.
 
-(* observation O-C10-1 (not a violation of C10; confirmed on the real crate by `cao-verif-harness
-   c10-witness`: after `brljcd := 1; uqabx := 2` both names read 2): two global variable names with the
-   same 32-bit Handle::from_str hash are one variable; the program is well-formed all the same *)
-Example C10_name_collision_observation :
-  handle_of_bytes [98; 114; 108; 106; 99; 100]%N = handle_of_bytes [117; 113; 97; 98; 120]%N /\
+(* observation O-C10-1, repaired in the repository by ce07816 ("two global variables whose names have the
+   same 32 bit hash are a compilation error"): FNV-1a-32 of "brljcd" and of "uqabx" is 2133916524; the
+   two names used to be one variable (legacy: one id, the first name kept, a well-formed program; on the
+   real crate both names read 2 after `brljcd := 1; uqabx := 2`); the second name is now rejected with
+   BadVariableName at its card.  CompilerGen.global_name_checked is read from compiler.rs on every run. *)
+Example C10_name_collision_hashes :
+  handle_of_bytes [98; 114; 108; 106; 99; 100]%N = handle_of_bytes [117; 113; 97; 98; 120]%N.
+Proof. exact name_collision_hashes. Qed.
+Print Assumptions C10_name_collision_hashes.
+
+Example C10_name_collision_repaired :
+  global_name_checked = true ->
+  compile name_collision_module default_options
+  = CErr (EBadVariableName [117; 113; 97; 98; 120]%N)
+         (Some ([], {| ci_function := 0; ci_indices := [1%nat] |})).
+Proof. exact name_collision_repaired. Qed.
+Print Assumptions C10_name_collision_repaired.
+
+Example C10_name_collision_legacy :
+  global_name_checked = false ->
   exists B, compile name_collision_module default_options = COk B /\
             length (p_ids B) = 1%nat /\ map snd (p_names B) = [[98; 114; 108; 106; 99; 100]%N] /\
             wf_check B = true.
-Proof. exact name_collision_observation. Qed.
-Print Assumptions C10_name_collision_observation.
+Proof. exact name_collision_legacy. Qed.
+Print Assumptions C10_name_collision_legacy.
+
+(* the globals conjunct, strengthened: the names of distinct ids are distinct strings, and - with the
+   name check - `variables.names` records, under the id that global_id returns, the very name it was
+   asked for (before ce07816 a second name with the same hash got the id and the entry of the first) *)
+Theorem C10_compile_names_distinct :
+  forall (M : module) (o : options) (B : compiled),
+    compile M o = COk B ->
+    program_in_range M o = true ->
+    program_utf8 M o = true ->
+    (N.of_nat (length (p_bytecode B)) < 2147483648)%N ->
+    (N.of_nat (length (p_data B)) < 4294967296)%N ->
+    NoDup (map snd (p_names B)).
+Proof. exact compile_names_distinct. Qed.
+Print Assumptions C10_compile_names_distinct.
+
+Theorem C10_global_id_records_name :
+  forall (name : str) (s : cstate) (id : N) (s1 : cstate),
+    global_name_checked = true ->
+    global_id name s = ROk id s1 ->
+    nm_find (handle_from_u32 id) (cs_names s1) = Some name.
+Proof. exact global_id_records. Qed.
+Print Assumptions C10_global_id_records_name.
 
 (* ---- scoping of index operands where the compiler produces them (CompilerScope.v) ----
    The bytecode does not declare the number of locals of a function, so "a local index refers to an
